@@ -27,6 +27,15 @@ pub mod ser {
         fn write_len(&self) -> (n: usize) { unimplemented!() }
     }
 }
+// Result::expect needs E: Debug; the io.rs error shim has no Debug impl
+#[verifier::external]
+impl core::fmt::Debug for crate::errors::Error {
+    fn fmt(&self, f: &mut core::fmt::Formatter<'_>) -> core::fmt::Result { f.write_str("Error") }
+}
+#[verifier::external]
+impl core::fmt::Debug for PublicParams {
+    fn fmt(&self, f: &mut core::fmt::Formatter<'_>) -> core::fmt::Result { f.write_str("PublicParams") }
+}
 /// writers whose write/write_all never return Err
 pub uninterp spec fn sink_never_fails<W>() -> bool;
 
@@ -47,8 +56,8 @@ pub mod key_axioms {
         ensures sink_never_fails::<Vec<u8>>()
     {}
     #[verifier::external_body]
-    pub proof fn axiom_mpi_of_biguint(b: &BigUint)
-        ensures mpi_of_biguint(b)@ == b.be_bytes()
+    pub proof fn axiom_mpi_of_biguint()
+        ensures forall|b: &BigUint| (#[trigger] mpi_of_biguint(b))@ == b.be_bytes()
     {}
 }
 
@@ -139,6 +148,22 @@ impl ser::Serialize for PublicParams {
     { unimplemented!() }
     #[verifier::external_body]
     fn write_len(&self) -> (n: usize) { unimplemented!() }
+}
+
+//@trusted T2 core::array::TryFromSliceError is an opaque error value
+#[verifier::external_type_specification]
+#[verifier::external_body]
+pub struct ExTryFromSliceError(core::array::TryFromSliceError);
+
+//@trusted T2 <&[u8] as TryInto<[u8; N]>>::try_into succeeds exactly for slices of length N and copies the octets (Verus cannot attach a spec to the std impl; units call it through the shim method try_into_shim)
+pub trait TryIntoArrShim {
+    fn try_into_shim<const N: usize>(&self) -> (r: core::result::Result<[u8; N], ()>);
+}
+impl TryIntoArrShim for [u8] {
+    #[verifier::external_body]
+    fn try_into_shim<const N: usize>(&self) -> (r: core::result::Result<[u8; N], ()>)
+        ensures (r is Ok) == (self@.len() == N), r is Ok ==> r->Ok_0@ == self@
+    { unimplemented!() }
 }
 
 /// crate::types::KeyId (src/types/key_id.rs:19)
